@@ -318,7 +318,13 @@ func (s *ctlSys) storeDump() string {
 	sort.Strings(ks)
 	for _, k := range ks {
 		svc := svcs[k]
-		fmt.Fprintf(&b, "svc %s %s status=%s from=%s\n", k, userPart(svc), statusOf(svc), svc.Annotations[refalloc.AnnFromPool])
+		// statusOf is order-insensitive (what the oracles compare); the listing order of the ingress entries is part of the
+		// state all the same: a re-sync that only reorders them is a write, and it is followed by another delivery
+		raw := ""
+		for _, in := range svc.Status.LoadBalancer.Ingress {
+			raw += in.IP + ";"
+		}
+		fmt.Fprintf(&b, "svc %s %s status=%s order=%s from=%s\n", k, userPart(svc), statusOf(svc), raw, svc.Annotations[refalloc.AnnFromPool])
 	}
 	return b.String()
 }
